@@ -23,7 +23,7 @@ LEVEL_NOTE = "Float regime (float literals, float unit factors such as deg/acre/
 TECHNIQUE = "Lean 4 algebra over Q on the model of make/convert/operator wrapper + generated-table fact + correspondence + Fraction oracle"
 
 
-def check(ctx):
+def _check_main(ctx):
     g = qty_common.run(ctx, "C04")
     R, rng = ctx.real, ctx.rng
     T = R.types
@@ -80,3 +80,11 @@ def check(ctx):
                 got = Fraction(v.mag) if (k == "ok" and isinstance(v, T.Quantity)) else (Fraction(v) if k == "ok" else None)
                 if got != want:
                     ctx.violation("operand-order:" + text, text, str(want), repr((k, v)), "execute(%r)" % text)
+
+
+
+def check(ctx):
+    _check_main(ctx)
+    # shared oracle: operators return new values, operands bound to variables are never updated in place
+    import alias_common
+    alias_common.run(ctx, prefix="alias")
